@@ -96,3 +96,17 @@ def _k2(v: Any, case: Any) -> bool:
     evs = w.get("dup_events") or []
     ids = w.get("dup_ids") or []
     return bool(evs) and len(evs) == len(ids) and all(e["name"] in ("Event Sync", "Context Sync") and e["corr"] == -1 for e in evs)
+
+
+# K3 -------------------------------------------------------------------------------------------
+def _k3(v: Any, case: Any) -> bool:
+    """critical_path() trips its own `assert len(critical_path_nodes) >= 2` on a graph all of whose edge
+    weights are zero (e.g. a window that holds nothing but a blocking synchronisation call): the
+    longest-path routine then returns a single node."""
+    w = v.witness
+    return (v.clause.startswith("no-exception:") and w.get("exc_type") == "AssertionError" and str(w.get("where", "")).endswith(":critical_path")
+            and w.get("all_logged_weights_zero") is True and w.get("n_logged_edges", 0) > 0)
+
+
+for _p in ("C08", "C09", "C10", "C19", "C20"):
+    classifier(_p, "k3_all_zero_weight_graph_trips_path_assert")(_k3)
